@@ -1110,6 +1110,33 @@ fn types_item<T: Ty>(kind: u32, idx: u64, block_len: u64, seed: u64, cx: &mut Cx
         }
     } else {
         let mut rng = Rng::new(mix(&[seed, 0x7E57, T::ID as u64, idx]));
+        if idx == 0 {
+            // worst case of the Euclidean algorithm at the full width of the type: every pair of consecutive Fibonacci
+            // numbers that fits (93 steps for 64 bits, 185 for 128), both orders, all sign combinations, and the
+            // neighbours F(k)+-1 (one division step fewer / more)
+            let (mut x, mut y): (u128, u128) = (1, 2);
+            while y <= T::MAXMAG as u128 {
+                for (a, b) in [(x, y), (y, x), (y, y - x), (x + 1, y), (x, y - 1)] {
+                    if a > T::MAXMAG as u128 || b > T::MAXMAG as u128 {
+                        continue;
+                    }
+                    let signs: &[(bool, bool)] = if T::SIGNED { &[(false, false), (true, false), (false, true), (true, true)] } else { &[(false, false)] };
+                    for &(sa, sb) in signs {
+                        let (pa, pb) = (Sm::new(sa, a), Sm::new(sb, b));
+                        check_gcd::<T>(pa, pb, cx);
+                        if lcm_admissible::<T>(pa, pb) {
+                            check_lcm::<T>(pa, pb, cx);
+                        }
+                    }
+                }
+                let z = match x.checked_add(y) {
+                    Some(z) => z,
+                    None => break,
+                };
+                x = y;
+                y = z;
+            }
+        }
         for _ in 0..block_len {
             let (a, b) = gen_wide_pair::<T>(&mut rng);
             check_gcd::<T>(a, b, cx);
